@@ -143,6 +143,13 @@ func c17(p *core.Program, r *core.Report) {
 				continue
 			}
 			if _, ok := purityExceptions[[2]string{key, core.FuncName(w.Event.Fn)}]; ok {
+				// the exception for the de-normalising writer holds on a premise that is checked, not assumed
+				if core.FuncName(w.Event.Fn) == "xy/lineintersector.intersectionWithNormalization" {
+					if okP, _ := normalisedCopiesPremise(p); !okP {
+						bad = append(bad, w)
+						continue
+					}
+				}
 				nExc++
 				continue
 			}
@@ -733,6 +740,111 @@ func immutableSingleton(o *eng.Obj) bool {
 		return true
 	case *types.Basic:
 		return u.Info()&types.IsString != 0
+	}
+	return false
+}
+
+// normalisedCopiesPremise: the written reason for excepting intersectionWithNormalization's `intPt[k] += normPt[k]`
+// - "the result of safeHCoordinateIntersection applied to four fresh normalised copies" - as a check: (a) every
+// coordinate intersectionWithNormalization hands to the function whose result it writes into is a slice made in
+// intersectionWithNormalization itself; (b) in that callee (and in what it delegates to within the package) every
+// coordinate handed to centralendpoint.GetIntersection, which returns one of its arguments, is one of the
+// function's own parameters: nothing it can return is the caller's memory.
+var (
+	normPremiseOnce sync.Once
+	normPremiseOK   bool
+	normPremiseWhy  string
+)
+
+func normalisedCopiesPremise(p *core.Program) (bool, string) {
+	normPremiseOnce.Do(func() {
+		normPremiseOK, normPremiseWhy = normalisedCopiesPremiseUncached(p)
+	})
+	return normPremiseOK, normPremiseWhy
+}
+
+func normalisedCopiesPremiseUncached(p *core.Program) (bool, string) {
+	fn := p.SSAFunc("xy/lineintersector", "intersectionWithNormalization")
+	if fn == nil {
+		return false, "intersectionWithNormalization not found"
+	}
+	// the slice written: the base of `intPt[k] += ...` stores
+	var src *ssa.Call
+	for _, b := range fn.Blocks {
+		for _, in := range b.Instrs {
+			st, ok := in.(*ssa.Store)
+			if !ok {
+				continue
+			}
+			if ia, isIA := st.Addr.(*ssa.IndexAddr); isIA {
+				if c, isC := ia.X.(*ssa.Call); isC && c.Call.StaticCallee() != nil && isCoordType(c.Type()) {
+					src = c
+				}
+			}
+		}
+	}
+	if src == nil {
+		return false, "the written coordinate is not the result of a call"
+	}
+	for _, a := range src.Call.Args {
+		if !isCoordType(a.Type()) {
+			continue
+		}
+		if !freshSlice(a) {
+			return false, "an argument of " + src.Call.StaticCallee().Name() + " is not a slice made in intersectionWithNormalization"
+		}
+	}
+	// callee side
+	seen := map[*ssa.Function]bool{}
+	var check func(f *ssa.Function, depth int) string
+	check = func(f *ssa.Function, depth int) string {
+		if f == nil || seen[f] || depth > 3 || len(f.Blocks) == 0 {
+			return ""
+		}
+		seen[f] = true
+		for _, c := range eng.Calls(f) {
+			g := c.Common().StaticCallee()
+			if g == nil {
+				continue
+			}
+			if core.FnPkgPath(g) == mod+"/xy/internal/centralendpoint" {
+				for _, a := range c.Common().Args {
+					if isCoordType(a.Type()) && paramIndex(f, a) < 0 {
+						return short(f) + " hands centralendpoint." + g.Name() + " a coordinate that is not one of its own parameters (" + a.String() + ")"
+					}
+				}
+			} else if g.Pkg == f.Pkg {
+				// a helper of the package must itself be handed parameters only, and is checked in turn
+				for _, a := range c.Common().Args {
+					if isCoordType(a.Type()) && paramIndex(f, a) < 0 {
+						if !freshSlice(a) {
+							return short(f) + " hands " + g.Name() + " a coordinate that is neither a parameter nor made here"
+						}
+					}
+				}
+				if why := check(g, depth+1); why != "" {
+					return why
+				}
+			}
+		}
+		return ""
+	}
+	if why := check(src.Call.StaticCallee(), 0); why != "" {
+		return false, why
+	}
+	return true, ""
+}
+
+// freshSlice: v is a slice made in this function (make with a variable length, or make/literal with a constant
+// length, which go/ssa builds as a slice of a new array).
+func freshSlice(v ssa.Value) bool {
+	v = eng.StripConv(v)
+	if _, ok := v.(*ssa.MakeSlice); ok {
+		return true
+	}
+	if sl, ok := v.(*ssa.Slice); ok {
+		_, isAlloc := sl.X.(*ssa.Alloc)
+		return isAlloc
 	}
 	return false
 }
